@@ -281,3 +281,128 @@ func resolveBlock(b *Block, sw map[string]string) (*Block, error) {
 	}
 	return nb, nil
 }
+
+// AnyUnmatched reports whether some poryswitch anywhere in the program -
+// including ones nested inside cases that are not selected - has neither a
+// case for its key's value nor a `_` case.
+func AnyUnmatched(p *Program, sw map[string]string) bool {
+	has := func(names []string, key string) bool {
+		for _, n := range names {
+			if n == sw[key] || n == "_" {
+				return true
+			}
+		}
+		return false
+	}
+	bad := false
+	var list func(es []*ListElem)
+	list = func(es []*ListElem) {
+		for _, e := range es {
+			if e.PS == nil {
+				continue
+			}
+			var names []string
+			for _, c := range e.PS.Cases {
+				names = append(names, c.Name)
+				list(c.Elems)
+			}
+			if !has(names, e.PS.Key) {
+				bad = true
+			}
+		}
+	}
+	var cmd func(c *Cmd)
+	cmd = func(c *Cmd) {
+		if c == nil {
+			return
+		}
+		for _, a := range c.Args {
+			list(a.Moves)
+		}
+	}
+	var cond func(c Cond)
+	cond = func(c Cond) {
+		switch x := c.(type) {
+		case *And:
+			for _, k := range x.Xs {
+				cond(k)
+			}
+		case *Or:
+			for _, k := range x.Xs {
+				cond(k)
+			}
+		case *Not:
+			cond(x.X)
+		case *Paren:
+			cond(x.X)
+		case *Leaf:
+			cmd(x.Auto)
+		}
+	}
+	var blk func(b *Block)
+	blk = func(b *Block) {
+		if b == nil {
+			return
+		}
+		for _, st := range b.Stmts {
+			switch x := st.(type) {
+			case *CmdStmt:
+				cmd(x.Cmd)
+			case *If:
+				for _, a := range x.Arms {
+					cond(a.Cond)
+					blk(a.Body)
+				}
+				blk(x.Else)
+			case *While:
+				cond(x.Cond)
+				blk(x.Body)
+			case *DoWhile:
+				blk(x.Body)
+				cond(x.Cond)
+			case *Switch:
+				cmd(x.Auto)
+				for _, c := range x.Cases {
+					blk(c.Body)
+				}
+			case *PorySwitch:
+				var names []string
+				for _, c := range x.Cases {
+					names = append(names, c.Name)
+					blk(c.Body)
+				}
+				if !has(names, x.Key) {
+					bad = true
+				}
+			}
+		}
+	}
+	for _, it := range p.Items {
+		switch x := it.(type) {
+		case *Script:
+			blk(x.Body)
+		case *TextItem:
+			if x.PS != nil {
+				var names []string
+				for _, c := range x.PS.Cases {
+					names = append(names, c.Name)
+				}
+				if !has(names, x.PS.Key) {
+					bad = true
+				}
+			}
+		case *MovementItem:
+			list(x.Steps)
+		case *MartItem:
+			list(x.Items)
+		case *MapScripts:
+			for _, e := range x.Entries {
+				blk(e.Body)
+				for _, r := range e.Rows {
+					blk(r.Body)
+				}
+			}
+		}
+	}
+	return bad
+}
